@@ -70,6 +70,9 @@ func (vc *VC) smtText(o *Obligation) string {
 			if it.obl.Canary || o.Canary {
 				continue // a vacuity canary tests the assumptions only, never unproved obligations
 			}
+			if it.obl.Skip {
+				continue // belongs to another property only: not proved in this run, so not assumed either
+			}
 			if strings.HasSuffix(it.obl.Kind, ".established") && it.blk != o.blk {
 				continue // subsumed by the invariant assumed at the loop head
 			}
